@@ -72,6 +72,8 @@ class RunnerBasics(Harness):
             {"M": 1, "A": 3, "H": 0, "S": 1, "acts": L, "pre": 1, "cap": 3, "script": "bystander"},
             # a trading halt fired by a fill, orders accepted during the halt, resumption: 3 agents, 4 steps
             {"M": 1, "A": 3, "H": 0, "S": 4, "acts": L, "pre": 0, "cap": 3, "script": "halt"},
+            # the halting round has two fills (a seller of two lots sweeping both bids), 2 steps
+            {"M": 1, "A": 3, "H": 0, "S": 2, "acts": L, "pre": 0, "cap": 3, "script": "halt", "sweep": True},
             # plain python numbers only (prices from {0, 0.4, 2}: the zero price, an off-grid price, volumes 1):
             # a buyer and a seller, two steps, limit orders at t=0, limit orders and cancels at t=1
             {"M": 1, "A": 2, "H": 0, "S": 2, "acts": ["none", "limit", "cancel"], "pre": 0, "cap": 2, "script": "plain-numbers"},
@@ -136,6 +138,8 @@ class RunnerBasics(Harness):
                     "acts": ["limit"],
                     "per_agent": {"0": {"side": "B", "active": [1, 2]}, "1": {"side": "S", "active": [1, 2]},
                                   "2": {"side": "B", "active": [1, 1]}}}
+            if case.get("sweep"):
+                menu["per_agent"]["1"]["vol_fixed"] = 2
         elif sc == "plain-numbers":
             menu = {"vol_fixed": 1, "price_set": [0, 0.4, 2], "ttl": [None],
                     "acts_by_time": {"0": ["limit"], "1": ["none", "limit", "cancel"]},
